@@ -208,12 +208,17 @@ Proof.
       rewrite Es in *. apply after_erase_ok; assumption.
 Qed.
 
-Lemma erase_it_ok : forall s cs a b, str_ok s cs -> buf_empty s = false -> a <= b -> b <= length cs ->
+Lemma erase_it_ok : forall s cs a b, str_ok s cs -> a <= b -> b <= length cs ->
   str_ok (erase_it s a b) (erase_spec a b cs).
 Proof.
-  intros s cs a b H B Hab Hb. pose proof H as (W & Sz & N & _). pose proof (ok_buf_nonempty s cs H B) as D.
-  destruct (erase_units (sdata s) cs a b W N D Hab Hb) as (W' & D' & V' & N' & _).
-  unfold erase_it. apply mk_ok; auto. rewrite V'. lia.
+  intros s cs a b H Hab Hb. pose proof H as (W & Sz & N & _). destruct (buf_empty s) eqn:B.
+  - (* no buffer at all: nothing to erase, the length stays 0 (m_data.empty() ? 0 : size - 1) *)
+    destruct (ok_buf_empty s cs H B) as [D C]. subst cs. simpl in Hb. assert (b = 0) by lia. assert (a = 0) by lia. subst.
+    unfold erase_it, erase_range. simpl. unfold erase_spec. simpl.
+    unfold str_ok. simpl. rewrite (vsize_of _ _ D). simpl. repeat split; auto.
+  - pose proof (ok_buf_nonempty s cs H B) as D.
+    destruct (erase_units (sdata s) cs a b W N D Hab Hb) as (W' & D' & V' & N' & _).
+    unfold erase_it. apply mk_ok; auto. rewrite V'. lia.
 Qed.
 
 Lemma erase_it1_ok : forall s cs p, str_ok s cs -> p < length cs -> str_ok (erase_it1 s p) (erase_spec p (S p) cs).
@@ -241,8 +246,16 @@ Proof.
   rewrite F. replace n with (length (firstn n l)) at 1 by (rewrite firstn_length_le; lia). apply set_nth_last.
 Qed.
 
-Lemma sresize_ok : forall s cs n c, str_ok s cs ->
-  (n <= length cs \/ (buf_empty s = true /\ c <> 0)) ->
+Lemma set_back_nonempty : forall d cs c x, wf d -> vdata d = cs ++ [x] ->
+  wf (set_back c d) /\ vdata (set_back c d) = cs ++ [c].
+Proof.
+  intros d cs c x W D. unfold set_back. rewrite (vsize_of _ _ D), app_length. simpl.
+  replace (length cs + 1 =? 0) with false by (symmetry; apply Nat.eqb_neq; lia).
+  split; [unfold wf, vsize in *; simpl; rewrite set_nth_length; assumption|].
+  simpl. rewrite D. replace (length cs + 1 - 1) with (length cs) by lia. apply set_nth_last.
+Qed.
+
+Lemma sresize_ok : forall s cs n c, str_ok s cs -> (n <= length cs \/ c <> 0) ->
   str_ok (sresize s n c) (resize_spec n c cs).
 Proof.
   intros s cs n c H G. pose proof H as (W & Sz & N & _). unfold sresize.
@@ -251,7 +264,9 @@ Proof.
   apply Nat.eqb_neq in E. rewrite Sz in E.
   destruct (buf_empty s) eqn:B.
   - destruct (ok_buf_empty s cs H B) as [D C]. subst cs. simpl in *.
-    destruct G as [G|[_ Nc]]; [lia|].
+    destruct G as [G|Nc]; [lia|].
+    assert (SB : set_back c (sdata s) = sdata s) by (unfold set_back; rewrite (vsize_of _ _ D); reflexivity).
+    rewrite SB.
     assert (R : vdata (resize (sdata s) (n + 1) c) = repeat c n ++ [c]).
     { rewrite resize_data, D. unfold resize_spec. simpl length. rewrite Nat.sub_0_r. rewrite firstn_nil. simpl. apply repeat_snoc. }
     unfold resize_spec. simpl length. rewrite firstn_nil, Nat.sub_0_r. cbn [app].
@@ -261,12 +276,30 @@ Proof.
     + apply nz_repeat. assumption.
     + unfold set_back0. cbn [vdata]. rewrite (vsize_of _ _ R), R, app_length, repeat_length. cbn [length].
       replace (n + 1 - 1) with (length (repeat c n)) by (rewrite repeat_length; lia). apply set_nth_last.
-  - pose proof (ok_buf_nonempty s cs H B) as D. destruct G as [G|[G _]]; [|discriminate].
-    assert (n < length cs) by lia.
-    destruct (shrink_buf (sdata s) (cs ++ [0]) n c W D) as (W' & D'); [rewrite app_length; simpl; lia|].
-    rewrite firstn_app_l in D' by lia.
-    unfold resize_spec. replace (n - length cs) with 0 by lia. simpl. rewrite app_nil_r.
-    apply mk_ok; auto. rewrite firstn_length_le; lia. apply nz_firstn. assumption.
+  - pose proof (ok_buf_nonempty s cs H B) as D.
+    destruct (set_back_nonempty (sdata s) cs c 0 W D) as (W1 & D1).
+    destruct (le_lt_dec n (length cs)) as [Le|Gt].
+    + (* shrinking *)
+      assert (n < length cs) by lia.
+      destruct (shrink_buf (set_back c (sdata s)) (cs ++ [c]) n c W1 D1) as (W' & D'); [rewrite app_length; simpl; lia|].
+      rewrite firstn_app_l in D' by lia.
+      unfold resize_spec. replace (n - length cs) with 0 by lia. simpl. rewrite app_nil_r.
+      apply mk_ok; auto. rewrite firstn_length_le; lia. apply nz_firstn. assumption.
+    + (* growing: the old terminator has been overwritten with c *)
+      destruct G as [G|Nc]; [lia|].
+      set (k := n - length cs).
+      assert (R : vdata (resize (set_back c (sdata s)) (n + 1) c) = (cs ++ repeat c k) ++ [c]).
+      { rewrite resize_data, D1. unfold resize_spec. rewrite firstn_all2 by (rewrite app_length; simpl; lia).
+        rewrite app_length. simpl length. replace (n + 1 - (length cs + 1)) with k by (unfold k; lia).
+        rewrite <- !app_assoc. f_equal. change ([c] ++ repeat c k) with (repeat c (S k)).
+        replace (S k) with (k + 1) by lia. apply repeat_snoc. }
+      unfold resize_spec. rewrite firstn_all2 by lia. fold k.
+      apply mk_ok.
+      * apply set_back0_wf, resize_wf, W1.
+      * rewrite app_length, repeat_length. unfold k. lia.
+      * apply nz_app; [assumption | apply nz_repeat; assumption].
+      * unfold set_back0. cbn [vdata]. rewrite (vsize_of _ _ R), R, app_length. cbn [length].
+        replace (length (cs ++ repeat c k) + 1 - 1) with (length (cs ++ repeat c k)) by lia. apply set_nth_last.
 Qed.
 
 Lemma sreserve_ok : forall s cs n, str_ok s cs -> str_ok (sreserve s n) cs.
@@ -352,8 +385,11 @@ Proof.
     assert (D1 : vdata d1 = sub p (p + n) cs ++ skipn n (cs ++ [0])).
     { unfold d1, blit. simpl. rewrite Ls, D. f_equal. unfold sub. rewrite skipn_app_l by lia.
       apply firstn_app_l. rewrite skipn_length. lia. }
-    destruct (shrink_buf d1 _ n 0 W1 D1) as (W' & D').
-    { rewrite app_length, sub_length, skipn_length, app_length by lia. simpl. lia. }
+    rewrite skipn_app_l, app_assoc in D1 by lia.
+    destruct (set_back_nonempty d1 _ 0 0 W1 D1) as (W2 & D2).
+    destruct (shrink_buf (set_back 0 d1) _ n 0 W2 D2) as (W' & D').
+    { rewrite !app_length, sub_length, skipn_length by lia. simpl. lia. }
+    rewrite <- app_assoc in D'.
     rewrite firstn_app_l in D' by (rewrite sub_length; lia).
     rewrite firstn_all2 in D' by (rewrite sub_length; lia).
     apply mk_ok; auto. rewrite sub_length; lia. apply nz_sub. assumption.
@@ -422,15 +458,10 @@ Proof.
     split; [rewrite B; reflexivity | apply set_cur_ok; assumption].
   - destruct (p + n <=? length (cur_u u)) eqn:E; [|exact I]. apply Nat.leb_le in E. upd. apply erase_cnt_ok; assumption.
   - destruct (p <=? length (cur_u u)) eqn:E; [|exact I]. apply Nat.leb_le in E. upd. apply erase_npos_ok; assumption.
-  - destruct ((a <=? b) && (b <=? length (cur_u u)) && negb (buf_empty (cur_str s))) eqn:E; [|exact I].
-    apply andb_prop in E. destruct E as [E E3]. rewrite E. apply andb_prop in E. destruct E as [E1 E2].
-    apply Nat.leb_le in E1, E2. apply negb_true_iff in E3. upd. apply erase_it_ok; assumption.
+  - destruct ((a <=? b) && (b <=? length (cur_u u))) eqn:E; [|exact I].
+    apply andb_prop in E. destruct E as [E1 E2]. apply Nat.leb_le in E1, E2. upd. apply erase_it_ok; assumption.
   - destruct (p <? length (cur_u u)) eqn:E; [|exact I]. apply Nat.ltb_lt in E. upd. apply erase_it1_ok; assumption.
-  - destruct (c =? 0) eqn:E; [exact I|]. apply Nat.eqb_neq in E. simpl orb.
-    destruct ((length (cur_u u) <? n) && negb (buf_empty (cur_str s))) eqn:G; [exact I|]. upd.
-    apply sresize_ok; [assumption|]. apply andb_false_iff in G. destruct G as [G|G].
-    + apply Nat.ltb_ge in G. left. assumption.
-    + apply negb_false_iff in G. right. auto.
+  - destruct (c =? 0) eqn:E; [exact I|]. apply Nat.eqb_neq in E. upd. apply sresize_ok; [assumption | right; assumption].
   - destruct (length (cur_u u) <? n) eqn:E; [exact I|]. apply Nat.ltb_ge in E. upd.
     replace (firstn n (cur_u u)) with (resize_spec n 0 (cur_u u)).
     + apply sresize_ok; [assumption | left; assumption].
@@ -461,6 +492,16 @@ Proof.
   - split; [reflexivity | assumption].
   - destruct R as (A & B & D). split; [reflexivity|]. unfold strel. simpl. auto.
   - destruct R as (A & B & D). split; [reflexivity|]. unfold strel. simpl. auto.
+  - destruct (p <? length (oth_u u)) eqn:E; [|exact I]. apply Nat.ltb_lt in E. upd.
+    assert (B : buf_empty (oth_str s) = false).
+    { destruct (buf_empty (oth_str s)) eqn:B; [|reflexivity]. destruct (ok_buf_empty _ _ O B) as [_ Q]. rewrite Q in E. simpl in E. lia. }
+    rewrite (ok_buf_nonempty _ _ O B). rewrite skipn_app_l by lia.
+    rewrite (strlen_prefix_ok (skipn p (oth_u u)) [] (nz_skipn _ _ No)).
+    apply append_w_ok; [assumption | apply nz_skipn; assumption].
+  - destruct (p <? length (cur_u u)) eqn:E; [|exact I]. apply Nat.ltb_lt in E. split; [|assumption].
+    f_equal. unfold assign_sub. rewrite (ok_chars _ (sub p (p + (length (cur_u u) - p)) (cur_u u))).
+    + replace (p + (length (cur_u u) - p)) with (length (cur_u u)) by lia. apply sub_to_end.
+    + apply (assign_w_ok sempty []); [apply ok_sempty | apply nz_sub; assumption].
 Qed.
 
 Theorem string_refines_u16_lemma : forall ops s u, strel s u -> st_refines s u ops.
@@ -504,8 +545,3 @@ Proof.
   - unfold strel. simpl. split; [apply ok_sempty | split; [apply ok_sempty | reflexivity]].
   - split; eapply ok_nul_inv; eassumption.
 Qed.
-
-(* the resize defect, faithful in the model: "abc".resize(6, 'x') *)
-Lemma sresize_grow_witness :
-  chars (sresize (append_w sempty [97; 98; 99]) 6 120) = [97; 98; 99; 0; 120; 120].
-Proof. vm_compute. reflexivity. Qed.
